@@ -68,6 +68,7 @@ type Engine struct {
 	harnessPkgs    map[*ssa.Package]bool
 	funcCache      sync.Map
 	initIDs        int
+	fiType         types.Type
 	InitLog        []string
 	LoadTime       time.Duration
 	InitTime       time.Duration
@@ -690,4 +691,14 @@ func SchedChoices(path []Decision) []int {
 		}
 	}
 	return out
+}
+
+// fileInfoType is a synthetic named type standing for the FileInfo returned by the os.Stat stub.
+func (e *Engine) fileInfoType() types.Type {
+	e.mu.Lock()
+	defer e.mu.Unlock()
+	if e.fiType == nil {
+		e.fiType = types.NewNamed(types.NewTypeName(token.NoPos, nil, "statStubFileInfo", nil), types.NewStruct(nil, nil), nil)
+	}
+	return e.fiType
 }
